@@ -64,7 +64,12 @@ def run(ctx, module, weights, tags, n_quick=250, len_quick=60, n_thorough=4000, 
         # second configuration: no default features of the crate except std (no serde, no stable_deref)
         exe2, o2 = common.cargo_build_bin(ctx, "hist", features=("std",))
         if exe2:
-            r2 = hist.run_correspondence(ctx, hs, exe2, model)
+            # (histories that use the arc-swap integration need that feature)
+            idx2 = [i for i, h in enumerate(hs) if not any(op.startswith("asw ") for op in h)]
+            r2 = hist.run_correspondence(ctx, [hs[i] for i in idx2], exe2, model)
+            r2.disagreements = [(idx2[hi], k, a, b) for (hi, k, a, b) in r2.disagreements]
+            r2.monitor_fails = [(idx2[hi], k, p, m) for (hi, k, p, m) in r2.monitor_fails]
+            r2.crashes = [(idx2[hi], rc) for (hi, rc) in r2.crashes]
             results.append(("debug/std-only", exe2, r2))
             configs.append("debug/std only")
     if release_quick_filter is None:
